@@ -145,7 +145,7 @@ class BeltStore(Store):
 
 
 
-    def _do_reserve_put(self,event):
+    def _do_reserve_put(self,event, dry_run=False):
         """
         Attempts to reserve space in the store for an incoming item.
         This method processes a `reserve_put` request by checking if the store has
@@ -172,6 +172,8 @@ class BeltStore(Store):
                     if self.env.now>= self.items[-1][0].conveyor_entry_time + self.delay:
                         #print(f"At time={self.env.now:.2f}, Process {self.env.active_process} "
                         # f"reserved space. Total reservations: {len(self.reservations_put)}")
+                        if dry_run:
+                            return True
                         self.reservations_put.append(event)
                         event.succeed()
                         if self.noaccumulation_mode_on:
@@ -179,6 +181,8 @@ class BeltStore(Store):
         else:
            
             if len(self.reservations_put) + len(self.items) +len(self.ready_items) < self.capacity:
+                if dry_run:
+                    return True
                 self.reservations_put.append(event)  # Add reservation
                 event.succeed()
                 # Log the success of the reservation
@@ -200,6 +204,10 @@ class BeltStore(Store):
         yield self.env.timeout(self.delay)
         #print(f"{self.env.now}Added event suceed        ed")
         event.succeed()
+
+    def can_reserve_put(self):
+        """True iff a reserve_put() issued now would be granted at once (the admission test, without side effects)."""
+        return bool(self._do_reserve_put(None, dry_run=True))
 
     def reserve_put_cancel(self, put_event_to_cancel):
       """
